@@ -234,3 +234,61 @@ func TestFinding_C03_ResumeOrder(t *testing.T) {
 		fmt.Println("FINDING-ABSENT " + id)
 	}
 }
+
+// F-C16-stale-forward: 3 physical channels on both sides. coll0 binds src-dml_0 to tgt-dml_1. coll1 lives on src-dml_0 too but on
+// tgt-dml_0 downstream: the manager reserves tgt-dml_0 for a waiting handler (there is none yet). coll2 (src-dml_1 -> tgt-dml_0)
+// takes tgt-dml_0 by a direct assignment, which does not see the reservation. coll3 (src-dml_2 -> tgt-dml_0) has to wait, receives
+// the stale reservation and is bound to tgt-dml_0 as well: one downstream channel serves two source channels although the counts
+// are equal (tgt-dml_2 stays unused).
+func TestFinding_C16_StaleForward(t *testing.T) {
+	const id = "F-C16-stale-forward"
+	w := newWorld(worldOpts{ttIntervalMs: 1, bufSize: 4})
+	defer w.close()
+	place := [][2]int{{0, 1}, {0, 0}, {1, 0}, {2, 0}}
+	for i, pl := range place {
+		c := w.addCollection(i, "default", []int{pl[0]}, []int{pl[1]}, []*partDef{{name: "_default"}}, false)
+		c.streams[0].posKd = "pchannel"
+		if err := w.start(c); err != nil {
+			t.Fatalf("VERIF-TROUBLE start: %v", err)
+		}
+		w.waitRegistered(c.streams[0], 10*time.Second)
+	}
+	if b, ok := w.quiesce(20 * time.Second); !ok {
+		t.Fatalf("VERIF-TROUBLE quiesce: %s", b)
+	}
+	time.Sleep(3 * time.Millisecond)
+	base := ts(1700000100000, 0)
+	for _, c := range w.colls {
+		st := c.streams[0]
+		if !w.disp.Registered(st.srcV) {
+			continue
+		}
+		st.script = []*packDef{{stream: st, idx: 0, id: []byte(fmt.Sprintf("c%dp0", c.idx)), begin: base, end: base + 1<<18}}
+		w.feedNext(st)
+		time.Sleep(2 * time.Millisecond)
+	}
+	if b, ok := w.quiesce(20 * time.Second); !ok {
+		t.Fatalf("VERIF-TROUBLE quiesce: %s", b)
+	}
+	out, _ := w.snapshot()
+	served := map[string]map[string]bool{}
+	for _, o := range out {
+		if o.rm.PChannelName == "" {
+			continue
+		}
+		if served[o.channel] == nil {
+			served[o.channel] = map[string]bool{}
+		}
+		served[o.channel][o.rm.PChannelName] = true
+	}
+	fmt.Printf("downstream channel -> source channels whose tick-only packs leave on it: %v\n", served)
+	present := false
+	for _, m := range served {
+		present = present || len(m) > 1
+	}
+	if present {
+		fmt.Println("FINDING-PRESENT " + id)
+	} else {
+		fmt.Println("FINDING-ABSENT " + id)
+	}
+}
